@@ -56,6 +56,13 @@ MachineStep(e) ==
       [] e.op = "from_bytes_mod" -> FromBytesMod(e.d, e.be, e.bytes)
       [] e.op = "from_bigint" -> FromBigInt(e.d, e.v)
       [] e.op = "into_bigint" -> IntoBigInt(e.d)
+      [] e.op = "norm" -> Norm(e.d)
+      [] e.op = "conj" -> Conj(e.d)
+      [] e.op = "mul_base" -> MulBase(e.d, e.j, e.s)
+      [] e.op = "sparse" -> Sparse(e.d, e.slots, e.cs)
+      [] e.op = "cyc_sq" -> CycSq(e.d)
+      [] e.op = "cyc_inv" -> CycInv(e.d)
+      [] e.op = "cyc_exp" -> CycExp(e.d, e.e)
 
 Act == /\ phase = "act" /\ l <= Len(Rec)
        /\ LET e == Rec[l] IN
